@@ -114,7 +114,9 @@ def check_level(level, old, new, diff, path, probs, Op, under_moved=False, in_re
     rewrite_rows_old = [(r, ch) for r, ch, g in ko if g[0].rewrite]
     rewrite_rows_new = [(r, ch) for r, ch, g in kn if g[0].rewrite]
     # (only the OUTERMOST %rewrite group may vanish: inside a rewritten block everything is re-emitted with the block)
-    rewrite_group_equal = (not in_rewrite) and (restrict_rows(level, rewrite_rows_old) == restrict_rows(level, rewrite_rows_new))
+    # (and not below a MOVED block: that block is removed and written anew, so its body has to be in the diff)
+    rewrite_group_equal = (not in_rewrite) and (not under_moved) and (
+        restrict_rows(level, rewrite_rows_old) == restrict_rows(level, rewrite_rows_new))
     for row in list(orows) + [r for r in nrows if r not in orows]:
         in_o, in_n = row in orows, row in nrows
         ent = seen.get(row)
